@@ -103,16 +103,33 @@
       with NO open hypothesis: under the decidable `projOK M p {} cs`, a run `runN M {} cs = some sN` projects on a
       run of `Model.Pipeline` with the log, successes and errors of `p`.  Example `exConn` (a connection error for a
       set with messages of both partitions; inside `projOK` for both partitions, outside `projOKp`).
+    * Props/C02multiK.lean - THE COMPUTED PROJECTION, PROVED: `projChoice p sN s c` (the step of the one-partition model
+      that the choice `c` is for `p`, or `none`; decided from the two states with the case split of the step lemmas:
+      partition of the token / hidden or visible set = whether the one-partition worker has a set), `proj_plain_c`
+      and `proj_step_c` (every step, under its side condition `stepOK` = `brOK` / `delOK`, IS the computed one; uses
+      `proj_deliver_noneOfP_c`, the explicit form of `proj_deliver_noneOfP_p` in Props/C02multiD3.lean), `projRun M p
+      sN s cs` (projected choice list and final state along the N-run), `projRun_sound` (under `projOK`, `projRun`
+      succeeds, its result is a run of `Model.Pipeline` with the log / successes / errors of `p`: the witness of
+      `ProjSim_projOK` is the computed one), `projSplitOK M p cs` (= `splitOKs` of the computed projection) and
+      `log_order_every_partition_checked : 1 ≤ M → projOK M p {} cs = true → projSplitOK M p cs = true →
+      runN M {} cs = some sN → LogOrderOf (sN.log p) (sN.succ p)` - ALL premises decidable from `cs`.  Instantiated
+      fully by `decide` on `exTwo` and `exConn`, both partitions.
   NO single-step statement is open any more: EVERY choice of the model with several partitions, from
   `WRel (BRp p)`-related states and under the per-step side conditions (`brOK`, `delOK`), is no step or one step of
-  the one-partition model.  What the side conditions EXCLUDE (so not covered): a broker answer that is not
-  well-formed for `p` or appends for `p` without coming from the leader of `p` (`brOK`); a `deliver` for a set that
-  holds nothing of `p` when the answer is a connection error or a message of `p` is held in waitForSpace (`delOK`:
-  these change the state of `p` - closing, the held message - without a step of a one-partition worker that has no
-  set at its bridge).
-  Also not established: that the one-partition run exhibited by `ProjSim_partial` satisfies `splitOKs` (it is a
-  hypothesis of `log_order_every_partition_partial`; it depends on the hidden/visible history, which the N-state alone
-  does not determine), and the full `ProjSim` (no side condition).
+  the one-partition model, and which one is computed (`projChoice`).  What the side conditions EXCLUDE (not covered):
+    - `brOK`: a broker answer that is not well-formed for `p`, or that appends for `p` without coming from the leader
+      of `p`.
+    - `delOK`: a `deliver` for a set that holds NOTHING of `p` when (i) the answer is a connection error or (ii) a
+      message of `p` is held in waitForSpace.  Why these are no simulation step as the model stands: the worker with
+      several partitions goes to closing mode and bounces everything in its buffer (i), or re-checks the held message
+      of `p` (ii) - retried if the worker is closing / `p` is in retry mode, else appended to the buffer -, i.e. the
+      state of `p` changes; but the one-partition worker has no set at its bridge and no prepared answer, so its
+      `deliver` is not enabled, and the only other step that sets `closing`, `Choice.closeW`, requires (`canClose`)
+      an empty buffer, nothing held, normal mode and `cur = some w`.  (i) with nothing of `p` buffered or held and
+      `canClose` would be a `closeW` step (NOT proved); (i) with messages of `p` buffered/held and (ii) need a new
+      choice in `Model.Pipeline` (a close that bounces the buffer / a re-check without an answer) - not done.
+  Also not established: that the computed projection ALWAYS satisfies `splitOKs` (`projSplitOK` is a checked premise
+  of `log_order_every_partition_checked`, not a theorem), and the full `ProjSim` (no side condition).
 -/
 import SaramaVerif.Model.PipelineN
 import SaramaVerif.Props.C02split
